@@ -53,6 +53,23 @@ pub fn check_geometry_record(run: &mut Run, id: u64, centre: (f64, f64), corners
         }
         Err(e) => run.violation("C06.centre", case(), format!("cell_to_lonlat({}) failed: {e}", hu(id))),
     }
+    // accepted non-canonical spellings of the id (one stray bit below the marker; the marker scan is the reference release's,
+    // unchanged since) denote the same place: where the library answers at all, it must answer with the reference centre
+    if let Some(c) = decode(id).filter(|c| c.res >= 2) {
+        let mut arng = crate::rng::Rng::stream(id, "C06.alias", 0);
+        for _ in 0..2 {
+            if let Some(w) = stray_alias(&mut arng, c) {
+                run.count("alias_spellings.tried");
+                if let Ok(p) = flatten(guard(|| a5::cell_to_lonlat(w))) {
+                    run.count("alias_spellings.answered");
+                    let d = chord_angle(unit_from_lonlat(p.longitude(), p.latitude()), unit_from_lonlat(centre.0, centre.1));
+                    if run.margin("alias_centre_displacement_rad", d, TOL_RAD, case) {
+                        run.violation("C06.alias_centre", case(), format!("{} is accepted as a spelling of {} but its centre is {:.3e} rad from the centre the reference reported for that cell", hu(w), hu(id), d));
+                    }
+                }
+            }
+        }
+    }
     match flatten(guard(|| a5::cell_to_boundary(id, Some(a5::core::cell::CellToBoundaryOptions { closed_ring: false, segments: Some(1) })))) {
         Ok(ring) => {
             if ring.len() != corners.len() {
